@@ -31,9 +31,11 @@ from .realeval import ev, close
 from .c15 import write_nl, snapshot, _Sink
 
 INVS = {
-    "s2": ["InvS2ContribExact", "InvS2ContribSymmetric", "InvS2ClassConsistent", "InvS2EdgeFamily", "InvFastImage"],
-    "tetra": ["InvTeRegularIsPerfect", "InvTeFourAreNearest", "InvTeDiamond", "InvFastImage"],
-    "nematic": ["InvNmSymTraceless", "InvNmTraceEqualsEig", "InvNmRawIsOne", "InvNmInUnitRange", "InvNmUnitVectors"],
+    "s2": ["InvS2ContribExact", "InvS2ContribSymmetric", "InvS2ClassConsistent", "InvS2EdgeFamily", "InvFastImage",
+           "InvS2FrameCells"],
+    "tetra": ["InvTeRegularIsPerfect", "InvTeFourAreNearest", "InvTeDiamond", "InvFastImage", "InvTeFrames"],
+    "nematic": ["InvNmSymTraceless", "InvNmTraceEqualsEig", "InvNmRawIsOne", "InvNmInUnitRange", "InvNmUnitVectors",
+                "InvNmTruncation", "InvNmRowOrder", "InvNmBigFamily"],
     "gyr": ["InvGyKappaIdentity", "InvGyRanges", "InvGyShiftInvariant", "InvGyRotatedEigen", "InvGyAxisKinds"],
 }
 SHARDS = {"quick": {"s2": 4, "tetra": 4, "nematic": 1, "gyr": 1},
@@ -68,12 +70,17 @@ def _call(chk, clause, case, fn, *a, finding_key=None, **k):
         return False, None
 
 
-def _snaps(frames, H, S, types=None, timesteps=None):
+def _snaps(frames, H, S, types=None, timesteps=None, Hs=None, tys=None):
+    """Hs / tys: one cell / one type vector per frame (every frame carries its own, as the dump reader delivers them)"""
     from PyMatterSim.reader.reader_utils import Snapshots
-    h = np.array(H, dtype=float) / S
-    ss = [snapshot(None, np.array(p, dtype=float) / S, h, timestep=(timesteps[f] if timesteps else 10 * f), types=types)
+    ss = [snapshot(None, np.array(p, dtype=float) / S, np.array(Hs[f] if Hs else H, dtype=float) / S,
+                   timestep=(timesteps[f] if timesteps else 10 * f), types=(tys[f] if tys else types))
           for f, p in enumerate(frames)]
     return Snapshots(nsnapshots=len(ss), snapshots=ss)
+
+
+def _bump(chk, key, n=1):
+    chk.extra[key] = chk.extra.get(key, 0) + n
 
 
 # --------------------------------------------------------------------------
@@ -83,13 +90,19 @@ def _snaps(frames, H, S, types=None, timesteps=None):
 def replay_s2(chk, lib, case, tmp, tag="A"):
     from PyMatterSim.static.pairentropy import S2
     small = case
-    snaps = _snaps(case["fr"], case["H"], case["S"], types=case["types"])
+    snaps = _snaps(case["fr"], case["H"], case["S"], types=case["types"], Hs=case.get("Hs"), tys=case.get("tys"))
     sig = np.array([[s[0] / s[1] for s in row] for row in case["sig"]], dtype=float)
     ppp = np.array(case["ppp"])
     rdelta = case["rn"] / case["rd"]
     T, n, nd = len(case["fr"]), len(case["types"]), case["nd"]
     has_zero = any(cl == "zero" for row in case["cls"] for cl in row)
-    ok_, obj = _call(chk, "S2:constructor", small, S2, snaps, sig, ppp, rdelta, nd)
+    if case["ppp"] == [1, 1, 1] and case["id"] % 2:       # documented default mask
+        ok_, obj = _call(chk, "S2:constructor", small, S2, snaps, sig, rdelta=rdelta, ndelta=nd)
+    else:
+        if case["id"] % 3 == 1:
+            sig.setflags(write=False)
+            ppp.setflags(write=False)
+        ok_, obj = _call(chk, "S2:constructor", small, S2, snaps, sig, ppp, rdelta, nd)
     if not ok_:
         return
     gr = None
@@ -155,6 +168,10 @@ def replay_s2(chk, lib, case, tmp, tag="A"):
                        "types": case["types"], "sig": case["sig"], "rdelta": [case["rn"], case["rd"]], "nd": nd,
                        "contrib": case["contrib"], "cls": case["cls"]})
         chk.extra["s2_particles_asserted"] = chk.extra.get("s2_particles_asserted", 0) + asserted
+        if case.get("Hs") and any(h != case["Hs"][0] for h in case["Hs"]):
+            _bump(chk, "s2_trajectories_with_cell_changing_between_frames")
+        if case.get("tys") and any(t != case["tys"][0] for t in case["tys"]):
+            _bump(chk, "s2_trajectories_with_types_changing_between_frames")
         if has_zero:
             chk.extra["s2_cases_with_zero_bins"] = chk.extra.get("s2_cases_with_zero_bins", 0) + 1
 
@@ -167,38 +184,50 @@ def replay_tetra(chk, lib, case, tmp, tag="A"):
     from PyMatterSim.static.geometric import q8_tetrahedral
     small = case
     n = len(case["pos"])
-    # every third case is rendered as a two-frame trajectory holding the configuration twice
-    nfr = 2 if case["id"] % 3 == 0 else 1
-    snaps = _snaps([case["pos"]] * nfr, case["H"], case["S"])
+    # cases with pos2 / H2 are two-frame trajectories (another configuration in a cell with other tilt factors)
+    frames = [(case["pos"], case["H"], case["rows"])]
+    if "pos2" in case:
+        frames.append((case["pos2"], case["H2"], case["rows2"]))
+    nfr = len(frames)
+    snaps = _snaps([fr[0] for fr in frames], case["H"], case["S"], Hs=[fr[1] for fr in frames])
     out = os.path.join(tmp, "tetra.npy")
-    ok_, res = _call(chk, "TetrahedralDefinition", small, q8_tetrahedral, snaps, ppp=np.array(case["ppp"]), outputfile=out,
-                     finding_key=KEY_TETRA_N5 if n == 5 else None)
+    kw = {} if (case["ppp"] == [1, 1, 1] and case["id"] % 2) else {"ppp": np.array(case["ppp"])}     # documented default mask
+    if case["id"] % 4 == 1:
+        kw["outputfile"] = out
+    ok_, res = _call(chk, "TetrahedralDefinition", small, q8_tetrahedral, snaps, finding_key=KEY_TETRA_N5 if n == 5 else None, **kw)
     if not ok_:
         return
     res = np.asarray(res)
     if res.shape != (nfr, n):
         chk.violation("Tetrahedral:shape", {**small, "shape": list(res.shape)})
         return
+    if "outputfile" in kw:
+        if not (os.path.exists(out) and np.array_equal(np.load(out), res, equal_nan=True)):
+            chk.violation("Tetrahedral:file", small)
+            return
+        os.unlink(out)
     asserted = 0
-    for i, row in enumerate(case["rows"]):
-        if row["tie"]:
-            chk.tie()
-            continue
-        asserted += 1
-        for f in range(nfr):
+    for f, (_, _, rows) in enumerate(frames):
+        for i, row in enumerate(rows):
+            if row["tie"]:
+                chk.tie()
+                continue
+            asserted += 1
+            ex = {"frame": f, "particle": i, "four": row["four"]}
             if row["perfect"]:
                 # "exactly one for perfect tetrahedral coordination"
                 if not _cmp(chk, "PerfectTetrahedronIsOne", small, float(res[f, i]), row["q"], f"q[{f}][{i}]",
-                            tol=dict(atol=1e-12, rtol=0), extra={"particle": i, "four": row["four"]}):
+                            tol=dict(atol=1e-12, rtol=0), extra=ex):
                     return
-            elif not _cmp(chk, "TetrahedralDefinition", small, float(res[f, i]), row["q"], f"q[{f}][{i}]",
-                          extra={"particle": i, "four": row["four"]}):
+            elif not _cmp(chk, "TetrahedralDefinition", small, float(res[f, i]), row["q"], f"q[{f}][{i}]", extra=ex):
                 return
     if asserted:
         chk.ok((tag, "tetra", case["id"], str(case["pos"]), str(case["ppp"]), case["S"]),
                sample={"kind": "tetra", "H": case["H"], "ppp": case["ppp"], "S": case["S"], "pos": case["pos"],
                        "four": [r["four"] for r in case["rows"]], "perfect": [r["perfect"] for r in case["rows"]]})
         chk.extra["tetra_particles_asserted"] = chk.extra.get("tetra_particles_asserted", 0) + asserted
+        if nfr == 2:
+            _bump(chk, "tetra_two_frame_trajectories_with_distinct_frames")
 
 
 # --------------------------------------------------------------------------
@@ -214,17 +243,21 @@ def replay_nematic(chk, lib, case, tmp, tag="A"):
     nlf = ""
     if case["nl"]:
         nlf = os.path.join(tmp, "nem_nl.dat")
-        with open(nlf, "w") as f:
-            for fr in case["nl"]:
+        with open(nlf, "w") as f:          # rows in the order the specification states (LocalOrder!LoRows)
+            for fr in case["rows"]:
                 f.write("id     cn     neighborlist\n")
-                for i, row in enumerate(fr):
-                    f.write(f"{i + 1} {len(row)} " + " ".join(str(j) for j in row) + "\n")
+                for r in fr:
+                    f.write(f"{r['id']} {len(r['list'])} " + " ".join(str(j) for j in r["list"]) + "\n")
     out = os.path.join(tmp, "nem")
     values = {}
     for eig in (False, True):
         obj = NematicOrder(ori)
-        ok_, res = _call(chk, "NematicDefinition", small, obj.tensor, ndim=2, neighborfile=nlf, Nmax=case["Nmax"],
-                         eigvals=eig, outputfile=out)
+        kw = dict(neighborfile=nlf, eigvals=eig, outputfile=out)
+        if not (case["Nmax"] == 30 and eig):       # Nmax = 30 is the documented default: left out in one of the two calls
+            kw["Nmax"] = case["Nmax"]
+        if case["id"] % 2:
+            kw["ndim"] = 2                         # (also the default)
+        ok_, res = _call(chk, "NematicDefinition", small, obj.tensor, **kw)
         if not ok_:
             return
         res = np.asarray(res)
@@ -252,7 +285,15 @@ def replay_nematic(chk, lib, case, tmp, tag="A"):
     if not np.allclose(values[False], np.real(values[True]), atol=1e-9, rtol=1e-9):
         chk.violation("NematicOrder:variants-agree", small)
         return
-    chk.ok((tag, "nematic", case["id"], str(case["fr"]), str(case["nl"])),
+    if case["nl"]:
+        cns = [len(r) for fr in case["nl"] for r in fr]
+        if max(cns) > 30:
+            _bump(chk, "nematic_cases_with_more_than_30_listed_neighbours")
+        if any(u < len(r) for fu, fr in zip(case["used"], case["nl"]) for u, r in zip(fu, fr)):
+            _bump(chk, "nematic_cases_truncated_by_Nmax")
+        if any([r["id"] for r in fr] != sorted(r["id"] for r in fr) for fr in case["rows"]):
+            _bump(chk, "nematic_files_with_rows_out_of_id_order")
+    chk.ok((tag, "nematic", case["id"], str(case["fr"]), str(case["nl"]), case["Nmax"]),
            sample={"kind": "nematic", "C": C, "fr": case["fr"], "nl": case["nl"], "order": case["order"][0][0]})
 
 
@@ -264,7 +305,14 @@ def replay_gyr(chk, lib, case, tmp, tag="A"):
     from PyMatterSim.static.shape import gyration_tensor
     small = case
     cloud = np.array(case["cloud"], dtype=float) / case["S"]
-    ok_, res = _call(chk, "GyrationDefinition", small, gyration_tensor, cloud.copy())
+    arg = cloud.copy()
+    if case["id"] % 3 == 1:          # a non-contiguous view (e.g. columns of a larger table)
+        big = np.full((cloud.shape[0], 2 * cloud.shape[1]), 3.5)
+        big[:, ::2] = cloud
+        arg = big[:, ::2]
+    elif case["id"] % 3 == 2:
+        arg = np.asfortranarray(cloud.copy())
+    ok_, res = _call(chk, "GyrationDefinition", small, gyration_tensor, arg)
     if not ok_:
         return
     d = case["d"]
@@ -305,6 +353,23 @@ def _rand_nl(rng, n, kmax):
 
 
 PYTH25 = [(7, 24), (24, 7), (15, 20), (20, 15), (25, 0), (0, 25)]
+PYTH5 = [(3, 4), (4, 3), (5, 0), (0, 5)]
+
+
+def _tilted(rng, L, frac=2):
+    d = len(L)
+    H = [[(L[i] if i == j else 0) for j in range(d)] for i in range(d)]
+    for i in range(1, d):
+        for j in range(i):
+            H[i][j] = rng.randint(-L[j] // frac, L[j] // frac)
+    return H
+
+
+def _rand_roword(rng, n):
+    order = list(range(1, n + 1))
+    if rng.random() < 0.6:
+        rng.shuffle(order)
+    return order
 
 
 def gen_records(rng, nrec):
@@ -319,18 +384,22 @@ def gen_records(rng, nrec):
             L = [rng.choice([30, 40, 50]) for _ in range(d)]
             H = [[(L[i] if i == j else 0) for j in range(d)] for i in range(d)]
             if rng.random() < 0.4:
-                for i in range(1, d):
-                    for j in range(i):
-                        H[i][j] = rng.randint(-L[j] // 2, L[j] // 2)
+                H = _tilted(rng, L)
             K = rng.randint(1, 3)
+            T = rng.choice([1, 1, 2, 3])
             recs.append({"m": "s2", "id": len(recs), "d": d, "H": H, "ppp": [rng.randint(0, 1) for _ in range(d)], "S": S,
-                         "fr": [[[rng.randint(0, L[k]) for k in range(d)] for _ in range(n)]],
+                         "fr": [[[rng.randint(0, L[k]) for k in range(d)] for _ in range(n)] for _ in range(T)],
                          "types": [rng.randint(1, K) for _ in range(n)] if K > 1 else [1] * n,
                          "sig": [[[rng.choice([1, 2, 3]), rng.choice([5, 10])] for _ in range(K)] for _ in range(K)],
                          "rn": 1, "rd": rng.choice([10, 5]), "nd": rng.randint(16, 36), "savegr": False})
             r = recs[-1]
             for t in set(range(1, K + 1)) - set(r["types"]):      # every type present
                 r["types"][t - 1] = t
+            if T > 1:        # a sheared run: the tilt factors change from frame to frame, the box lengths do not
+                r["ppp"] = [1] * d if rng.random() < 0.7 else r["ppp"]
+                r["Hs"] = [H] + [_tilted(rng, L) for _ in range(T - 1)]
+                if K > 1 and rng.random() < 0.5:
+                    r["tys"] = [r["types"]] + [rng.sample(r["types"], n) for _ in range(T - 1)]
         elif kind == "tetra":
             n = rng.randint(6, 30)
             S = 10
@@ -340,15 +409,29 @@ def gen_records(rng, nrec):
                 H[1][0] = rng.randint(-20, 20); H[2][0] = rng.randint(-20, 20); H[2][1] = rng.randint(-20, 20)
             recs.append({"m": "tetra", "id": len(recs), "kind": "rnd", "H": H, "ppp": [rng.randint(0, 1) for _ in range(3)],
                          "S": S, "pos": [[rng.randint(0, L[k]) for k in range(3)] for _ in range(n)]})
+            if rng.random() < 0.4:     # two-frame trajectory: another configuration, other tilt factors
+                recs[-1]["H2"] = _tilted(rng, L, frac=4)
+                recs[-1]["pos2"] = [[rng.randint(0, L[k]) for k in range(3)] for _ in range(n)]
         elif kind == "nematic":
-            n = rng.randint(6, 30)
             T = rng.randint(1, 3)
+            long_lists = rng.random() < 0.3
+            if long_lists:      # more listed neighbours than the routines' default Nmax = 30
+                n = rng.randint(34, 45)
+                pyth, C = PYTH5, 5
+                nl = [[rng.sample([j for j in range(1, n + 1) if j != i], rng.randint(28, n - 1)) for i in range(1, n + 1)]
+                      for _ in range(T)]
+                cns = sorted(len(r) for fr in nl for r in fr)
+                nmax = rng.choice([30, 200, cns[-1], cns[-1] + 1, cns[len(cns) // 2], cns[0] - 1, 31, 7])
+            else:
+                n = rng.randint(6, 30)
+                pyth, C = PYTH25, 25
+                nl = [_rand_nl(rng, n, 12) for _ in range(T)] if rng.random() < 0.8 else []
+                nmax = rng.choice([30, 12, 20, 5, 1])
             def uv():
-                a, b = rng.choice(PYTH25)
+                a, b = rng.choice(pyth)
                 return [a * rng.choice([-1, 1]), b * rng.choice([-1, 1])]
-            recs.append({"m": "nematic", "id": len(recs), "C": 25, "fr": [[uv() for _ in range(n)] for _ in range(T)],
-                         "nl": [_rand_nl(rng, n, 12) for _ in range(T)] if rng.random() < 0.8 else [],
-                         "Nmax": rng.choice([30, 12, 20])})
+            recs.append({"m": "nematic", "id": len(recs), "C": C, "fr": [[uv() for _ in range(n)] for _ in range(T)],
+                         "nl": nl, "roword": [_rand_roword(rng, n) for _ in range(T)], "Nmax": nmax})
         else:
             d = rng.choice([2, 3])
             n = rng.randint(2, 40)
